@@ -5,6 +5,7 @@ what the color= keyword does to the artists, and plot_dual = plot_edges o make_d
 from lib import *  # noqa
 import xcheck as X
 import time
+import sys
 
 # ---------------------------------------------------------------- recording
 XCAP = 400          # lines remembered per command (short ones only)
@@ -303,8 +304,6 @@ def crosscheck(ctx):
             body += gs
             n_cases[cmd] = n_cases.get(cmd, 0) + 1
     res = ctx.res
-    if os.environ.get("C16X_KEEP"):
-        open(os.environ["C16X_KEEP"], "w").write("\n".join(body))
     res.extra["extraction_crosscheck_goals_vm_compute"] = X.compile_goals(
         "c16", "Model.Lattice Model.Dual Model.Clip Model.Plot Model.PlotGlue", body, "c16", stdlib="List ZArith Bool QArith Qminmax Qabs")
     res.extra["extraction_crosscheck_cases"] = n_cases
@@ -513,6 +512,22 @@ def expect_exc(ctx, what, r, want, case):
         ctx.k_mismatch(f"{what}: implementation raised {r['exc']} ({r['msg']}), model {want}", case)
 
 
+def s_colour_clause(ctx, c16, what, case, cols, ca, default=None):
+    """S, independent of the model: every artist colour is the color= keyword's (edges, plaquettes), else one of the scheme's
+    entries — THE entry for a str scheme or for the defaults (label 0)"""
+    if default is not None:
+        allowed = {c16.rgba(default)}
+    elif ca["kw"] is not None:
+        allowed = {c16.rgba(ca["kw"])}
+    elif isinstance(ca["sarg"], str):
+        allowed = {c16.rgba(ca["sarg"])}
+    else:
+        allowed = {c16.rgba(x) for x in ca["sarg"]}
+    bad = [c for c in cols if tuple(c) not in allowed]
+    if bad:
+        ctx.res.violation("glue:colour", f"{what}: drawn in {bad[0]}, which is neither the color= keyword nor an entry of the colour scheme (allowed: {sorted(allowed)[:4]})", case)
+
+
 def glue_vertices(ctx, c16, lc, ca, case, default=False):
     from koala import plotting as kp
     what = "plot_vertices[defaults]" if default else f"plot_vertices[scheme={ca['sarg']!r}, color={ca['kw']!r}]"
@@ -529,6 +544,8 @@ def glue_vertices(ctx, c16, lc, ca, case, default=False):
     c = Cursor(o["pts"])
     mp = c.list(lambda: (c16.rd_pt(c), rd_ustr(c)))
     off, fc = got if got is not None else ([], [])
+    if len(off):
+        s_colour_clause(ctx, c16, what, case, fc, ca, default=("black" if default else None))
     vclose = lambda a, b: a[1] == b[1] and np.max(np.abs(np.asarray(a[0]) - np.asarray(b[0]))) <= c16.TOL
     if got is None or not c16.match_multisets([(off[k], fc[k]) for k in range(len(off))], [((float(p[0]), float(p[1])), c16.rgba(col)) for p, col in mp], vclose):
         ctx.k_mismatch(f"{what}: model draws {len(mp)} vertices {[(float(p[0]), float(p[1]), col) for p, col in mp][:3]}, implementation {len(off)}", case)
@@ -557,6 +574,8 @@ def glue_edges(ctx, c16, lc, ca, case, default=False):
     if got is None:
         return ctx.k_mismatch(f"{what}: no LineCollection", case)
     segs, cols, _ = got
+    if len(segs):
+        s_colour_clause(ctx, c16, what, case, cols, ca, default=("#E7414E" if default else None))
     idx = list(range(len(lc.edges))) if default else c16.ref_indices(ca["subset"], len(lc.edges))
     compare_edges(ctx, c16, what, case, lc.pos, lc.edges, lc.crossing, idx or [], segs, cols, [(d[0], d[2]) for d in md], lc.exact, c16.rgba)
 
@@ -580,6 +599,7 @@ def glue_plaquettes(ctx, c16, lc, ca, case, default=False):
     nm = int(o["np"][0])
     if idx is None or nm != len(got) or nm != len(idx):
         return ctx.k_mismatch(f"{what}: model {nm} plaquettes, implementation {len(got)}", case)
+    s_colour_clause(ctx, c16, what, case, [fc for _, fcs in got for fc in fcs], ca, default=("#E7414E" if default else None))
     for k, (i, (polys, fcs)) in enumerate(zip(idx, got)):
         c = Cursor(o[f"p{k}"])
         col = rd_ustr(c)
@@ -620,7 +640,7 @@ def glue_dual(ctx, c16, lc, case, rng):
         return
     n = D.n_edges
     pa = c16.gen_plot_args(rng, n)
-    dirs = [int(x) for x in rng.choice([-1, 1], size=n)] if (n <= 150 and rng.uniform() < 0.3) else None
+    dirs = [int(x) for x in rng.choice([-1, 1], size=n)] if (n <= 40 and rng.uniform() < 0.3) else None
     dpos = np.asarray(D.vertices.positions, dtype=float)
     # --- S and K on the dual's own (float) arrays: the artists of plot_dual(primal) must be those of the dual lattice
     lc2 = c16.LatCase()
@@ -689,6 +709,15 @@ def glue_checks(ctx, lc, case):
     import c16
     rng = np.random.default_rng([case["seed"], 16, 5])
     kind = case.get("glue_kind") or GLUE_KINDS[int(rng.integers(0, len(GLUE_KINDS)))]
+    if kind == "dual" and "glue_kind" not in case:
+        # budget: plot_dual (make_dual several times, plaquettes of the dual) on the smaller lattices, a bounded number per run
+        left = getattr(ctx, "glue_dual_left", None)
+        if left is None:
+            left = 14 if ctx.tier == "quick" else 300
+        if left <= 0 or len(lc.edges) > (90 if ctx.tier == "quick" else 400) or not lc.plaqs or lc.exact:
+            kind = "edges"
+        else:
+            ctx.glue_dual_left = left - 1
     res = ctx.res
     gcase = dict(case, glue_kind=kind)
     t0 = time.time()
